@@ -325,6 +325,24 @@ func enqueuersInSelect() int {
 	return cnt
 }
 
+// waitFor polls `cond` until it holds (true) or the bound passes (false).
+func waitFor(bound time.Duration, cond func() bool) bool {
+	deadline := time.Now().Add(bound)
+	for i := 0; ; i++ {
+		if cond() {
+			return true
+		}
+		if time.Now().After(deadline) {
+			return false
+		}
+		if i < 20 {
+			runtime.Gosched()
+		} else {
+			time.Sleep(50 * time.Microsecond)
+		}
+	}
+}
+
 // waitUntil polls `cond` (cheap, deterministic conditions only) until it holds or the timeout.
 func waitUntil(what string, cond func() bool) {
 	deadline := time.Now().Add(settleTimeout)
